@@ -20,7 +20,12 @@ RULE = ("complete layer: every well-formed document with <= 3 nodes over keys {a
         "Thorough sizes: 700 000 random cases (quick 60 000) and, next to the complete layers (untouched), 120 of the 300 "
         "seeded anchored variants in the full two-segment product (trimmed from 1 000 000 / 300: the run took 30.4 min at "
         "load 40-60; the complete layers are not sampled).  "
-        "distinct_nontrivial = distinct (document, path) whose required query returns at least one node.")
+        "distinct_nontrivial = distinct (document, path) whose required query returns at least one node.  Collector layer (wave w3): "
+        "seeded-random collector paths (1-4 operands joined by + - &, operands = straight paths to existing nodes, related paths, "
+        "wildcards, slices, searches, nested collectors; optional index / slice / key tail or key prefix) over hashes sharing keys and "
+        "values and over random documents without aliases; observable: per result the flattened list of (node value after the query, "
+        "address of the reported parent, parentref, identity address of containers), the error class (crash classes included), and "
+        "the document after get_nodes(mustexist=True) and after exists() - all compared with the state-passing model W3.requiredM.")
 
 
 THOROUGH_ANCH2 = 120      # anchored variants (a seeded sample, not part of the complete layer) in the thorough two-segment product
@@ -133,6 +138,14 @@ def absorb(chk, results):
 def replay(chk, opts):
     rp = json.load(open(chk.replay_in))
     c = rp.get("case", rp)
+    if c.get("layer"):      # a collector case (wave w3)
+        stats, viol, _dis = ev.w3_chunk(([(c["doc"], c["path"], c["layer"])], opts))
+        print("replay:", json.dumps({"doc": c["doc"], "path": c["path"], "violations": [(s, w) for s, w, _ in viol]}, default=str)[:3000])
+        chk.evaluations += stats["n"]
+        for sig, w, case in viol:
+            if case.get("prop") == "C01":
+                chk.violation(sig, w, case)
+        return chk
     items = c.get("items") or [c["path"]]
     res = ev.compare_chunk(([(c["doc"], items)], opts))
     print("replay:", json.dumps({"doc": c["doc"], "path": c.get("path"), "violations": [(s, w) for s, w, _ in res[1]],
@@ -148,4 +161,34 @@ def run(chk: core.Check):
     chk.exhaustive = True
     jobs = build_jobs(chk, opts)
     absorb(chk, core.pmap(ev.compare_chunk, jobs))
+    collectors(chk)
     return chk
+
+
+def collectors(chk, nquick=16000, nthorough=200000):
+    """Wave w3: collector paths against the state-passing model `W3.requiredM` (driver op C01.coll): flattened results
+    (node value after the query, reported parent address + parentref, identity address of containers), error class,
+    and the document after get_nodes(mustexist=True) / exists()."""
+    rng = random.Random(chk.seed * 7919 + 3)
+    cases = ev.w3_cases(rng, nquick if chk.tier == "quick" else nthorough)
+    cases = cases[:10] + subsample(chk, cases[10:])
+    nontrivial = 0
+    for stats, viol, disag in core.pmap(ev.w3_chunk, [(c, {}) for c in core.chunked(cases, 400)]):
+        chk.evaluations += stats["n"]
+        chk.out_of_model += stats["oom"]
+        nontrivial += stats["nontrivial"]
+        for k in ("nonempty", "ypath", "crash_agree", "mutated", "virtual_results", "hashsub"):
+            chk.count("collector:" + k, stats[k])
+        for k, v in stats["ops"].items():
+            chk.count("collector-ops:" + (k or "none"), v)
+        for sig, w, case in viol:
+            if case.get("prop") == "C01":
+                chk.violation(sig, w, case)
+            else:
+                chk.count("other-property-violations:" + case.get("prop", "?"))
+        for sig, w, case in disag:
+            chk.disagreements_checked += 1
+            chk.disagreement(sig, w, case)
+    chk.nontrivial_extra += nontrivial
+    chk.extra_cov["collectors"] = "%d seeded-random collector paths (1-4 operands, nesting <= 2, + - &, index/slice/key tails) " \
+        "over hashes sharing keys and values / random documents without aliases, + 10 escaped-operand paths" % (len(cases) - 10)
